@@ -23,8 +23,11 @@ type Mutant struct {
 	File string // path relative to the repository root
 	Old  string // must occur exactly once in File (else the mutant is skipped and counted)
 	New  string
+	More []Edit // further edits of the same mutant (multi-site changes)
 	Rule string // prefix of the obligation key that must be reported as violated; "-" = behaviour-preserving variant, every rule must stay silent
 }
+
+type Edit struct{ File, Old, New string }
 
 var registry = map[string]*Property{}
 
